@@ -1,6 +1,7 @@
 import ClusterVerif.Spec.C17
 import Driver.PinParse
 import Driver.C17Fault
+import Driver.C17Depart
 namespace CV.C17
 open CV CV.Parse CV.PinParse
 
@@ -123,6 +124,7 @@ def answer (ws : List String) : String :=
   if ws.head? == some "f" then answerFault ws.tail else
   if ws.head? == some "x" then answerConc ws.tail else
   if ws.head? == some "j" then answerJoin ws.tail else
+  if ws.head? == some "d" then answerDepart ws.tail else
   match parseCase ws with
   | none => "bad-case parse"
   | some k =>
